@@ -8,6 +8,7 @@ import gens
 import gens_staking
 import gens_markets
 import gens_more
+import gens_sync
 import vlib
 
 # model-checking configuration per family and tier: (module, cfg)
@@ -54,8 +55,8 @@ def durability_steps(model_steps):
     steps = []
     h = 200
     for s in model_steps:
-        if s["op"] == "restart":
-            steps.append({"op": "restart"})
+        if s["op"] in ("restart", "statesync"):
+            steps.append({"op": s["op"]})
             continue
         kind = s["kind"]
         pre = None
@@ -142,5 +143,28 @@ def markets(tier, seed):
 
 
 MC["markets"] = None
-BUILDERS = {"markets": markets, "staking": staking, "ledger": ledger, "durability": durability, "crash": lambda tier, seed: crash(tier, seed) + crash_enumeration(tier, seed)}
+
+
+def statesync(tier, seed):
+    rnd = random.Random("%d/statesync" % seed)
+    raw = vlib.tlc_generate_raw("Durability", "gen/MCDurabilityGen_C29.cfg")
+    scs = sample(rnd, gens_sync.statesync_from_model(raw), {"quick": 60, "thorough": 0}[tier])
+    scs += gens_sync.statesync(rnd, {"quick": 12, "thorough": 250}[tier])
+    return scs + regress("statesync")
+
+
+def export(tier, seed):
+    rnd = random.Random("%d/export" % seed)
+    return gens_sync.export_import(rnd, {"quick": 20, "thorough": 400}[tier]) + regress("export")
+
+
+def determinism(tier, seed):
+    rnd = random.Random("%d/determinism" % seed)
+    return gens_sync.determinism(rnd, {"quick": 20, "thorough": 400}[tier]) + regress("determinism")
+
+
+MC["statesync"] = {"quick": ("Durability", "mc/MCDurability_C29.cfg"), "thorough": ("Durability", "mc/MCDurability_C29_t.cfg")}
+MC["export"] = None
+MC["determinism"] = None
+BUILDERS = {"statesync": statesync, "export": export, "determinism": determinism,"markets": markets, "staking": staking, "ledger": ledger, "durability": durability, "crash": lambda tier, seed: crash(tier, seed) + crash_enumeration(tier, seed)}
 RANDOMISED = True
